@@ -186,7 +186,7 @@ Proof.
                hl / 4 = 11 \/ hl / 4 = 12 \/ hl / 4 = 13 \/ hl / 4 = 14 \/ hl / 4 = 15) by lia.
   assert (Hc : ctl = 0 \/ ctl = 1 \/ ctl = 2 \/ ctl = 3 \/ ctl = 4) by lia.
   repeat destruct Hq as [Hq | Hq]; rewrite Hq; repeat destruct Hc as [Hc | Hc]; rewrite Hc;
-    destruct (tcp_ack r); vm_compute; repeat split.
+    destruct (tcp_ack r); cbv; repeat split.
 Qed.
 
 Section Parse.
